@@ -106,18 +106,57 @@ func (c *Ctx) idOnceBySim(rule string, fam *expFamily) bool {
 		var base, id types.Object
 		var recSteps string
 		guardSeen, guardOK := false, true
+		// when the record is a small struct: the member that holds the id (the one a string parameter is stored in)
+		idMember := ""
+		var candidates map[string]bool
 		for _, p := range paths {
-			for _, cd := range p.conds {
+			for _, e := range p.effs {
+				if e.kind != "write" || e.dst.root != recv {
+					continue
+				}
+				if st, isSt := e.val.(svStruct); isSt {
+					here := map[string]bool{}
+					for name, fv := range st.fields {
+						for k := 0; k < 2; k++ {
+							if name != "" && isParam(fv, strs[k]) {
+								here[name] = true
+							}
+						}
+					}
+					// the member that holds the parameter in every record written
+					if candidates == nil {
+						candidates = here
+					} else {
+						for name := range candidates {
+							if !here[name] {
+								delete(candidates, name)
+							}
+						}
+					}
+				}
+			}
+		}
+		if len(candidates) == 1 {
+			for name := range candidates {
+				idMember = name
+			}
+		}
+		memberOK := func(v sval) bool {
+			sel, isSel := v.(svSel)
+			return !isSel || idMember == "" || sel.steps == idMember
+		}
+		for _, p := range paths {
+			for _, cd := range expandConds(p.conds) {
 				b, ok := cd.v.(svBin)
 				if !ok || b.op != token.NEQ || cd.loop {
 					continue
 				}
 				x, y := b.x, b.y
-				if _, isIx := y.(svIndex); isIx {
+				if _, isIx := recordEntry(y); isIx {
 					x, y = y, x
 				}
-				ix, isIx := x.(svIndex)
-				if !isIx {
+				ix, isIx := recordEntry(x)
+				if !isIx || !memberOK(x) {
 					continue
 				}
 				rp, isRecv := ix.x.(svPath)
@@ -151,13 +190,17 @@ func (c *Ctx) idOnceBySim(rule string, fam *expFamily) bool {
 		if base != nil {
 			for _, p := range paths {
 				decided := false
-				for _, cd := range p.conds {
+				for _, cd := range expandConds(p.conds) {
+					// (no entry for this base at all: the base was not produced by any id)
+					if h, isHas := cd.v.(svHas); isHas && cd.neg && !cd.loop && isParam(h.i, base) {
+						decided = true
+					}
 					b, ok := cd.v.(svBin)
 					if !ok || b.op != token.NEQ || cd.loop {
 						continue
 					}
 					for _, pr := range [][2]sval{{b.x, b.y}, {b.y, b.x}} {
-						if ix, isIx := pr[0].(svIndex); isIx && isParam(ix.i, base) && isParam(pr[1], id) {
+						if ix, isIx := recordEntry(pr[0]); isIx && memberOK(pr[0]) && isParam(ix.i, base) && isParam(pr[1], id) {
 							decided = true
 						}
 					}
@@ -178,12 +221,12 @@ func (c *Ctx) idOnceBySim(rule string, fam *expFamily) bool {
 		npaths := 0
 		for _, p := range paths {
 			onGuard := false
-			for _, cd := range p.conds {
+			for _, cd := range expandConds(p.conds) {
 				if b, ok := cd.v.(svBin); ok && b.op == token.NEQ && cd.neg {
-					if ix, isIx := b.x.(svIndex); isIx && isParam(ix.i, base) {
+					if ix, isIx := recordEntry(b.x); isIx && isParam(ix.i, base) {
 						onGuard = true
 					}
-					if ix, isIx := b.y.(svIndex); isIx && isParam(ix.i, base) {
+					if ix, isIx := recordEntry(b.y); isIx && isParam(ix.i, base) {
 						onGuard = true
 					}
 				}
@@ -223,7 +266,16 @@ func (c *Ctx) idOnceBySim(rule string, fam *expFamily) bool {
 				if e.kind == "write" && e.dst.root == recv && len(e.dst.steps) > 0 {
 					stepsNoKey := strings.Join(e.dst.steps[:len(e.dst.steps)-1], ".")
 					last := e.dst.steps[len(e.dst.steps)-1]
-					if stepsNoKey == recSteps && isParam(e.val, id) && last == "[#"+svString(newBase)+"]" {
+					holdsID := isParam(e.val, id)
+					if st, isSt := e.val.(svStruct); isSt {
+						// a small record struct one member of which is the id
+						for name, fv := range st.fields {
+							if name != "" && isParam(fv, id) {
+								holdsID = true
+							}
+						}
+					}
+					if stepsNoKey == recSteps && holdsID && last == "[#"+svString(newBase)+"]" {
 						rec = true
 					}
 				}
@@ -235,6 +287,29 @@ func (c *Ctx) idOnceBySim(rule string, fam *expFamily) bool {
 				recorded = false
 			}
 		}
+		// the scope chain: for a derived base the record must also tell which base the id was applied to, or an id
+		// that was applied two scopes up (two schemas with relative ids that refer to each other) is not recognised
+		// and the base grows at every unfolding
+		linksParent := false
+		for _, p := range paths {
+			for _, e := range p.effs {
+				if e.kind != "write" || e.dst.root != recv || len(e.dst.steps) == 0 || !strings.HasPrefix(e.dst.steps[len(e.dst.steps)-1], "[#") {
+					continue
+				}
+				if isParam(e.val, base) {
+					linksParent = true
+				}
+				if st, isSt := e.val.(svStruct); isSt {
+					for name, fv := range st.fields {
+						if name != "" && isParam(fv, base) {
+							linksParent = true
+						}
+					}
+				}
+			}
+		}
+		c.ob(rule, fn+":scope-chain-recorded", fd.Pos(), linksParent,
+			fn+" records which id produced a base but not which base that id was applied to: the guard only recognises an id that produced the current base, so two schemas with relative ids (with a directory part) that refer to each other re-apply each other's id on top of the other's base at every unfolding; the base grows, the cycle cut never sees the same key, and the expansion overflows the stack")
 		c.ob(rule, fn+":record", fd.Pos(), recorded && npaths > 0,
 			fn+" does not record, under the new base path it returns, which id produced it: a later re-application of the same id cannot be recognised")
 		c.ob(rule, fn+":registers-always", fd.Pos(), always && keyOK && npaths > 0,
@@ -282,4 +357,53 @@ func lastOf(dotted string) string {
 // reachesFrom: g is reachable from f through static package calls.
 func (c *Ctx) reachesFrom(f, g *types.Func) bool {
 	return c.reaches(f, func(h *types.Func) bool { return h == g })
+}
+
+// recordEntry: the value is an entry of a map (m[k]) or a field of such an entry (m[k].id): the entry.
+func recordEntry(v sval) (svIndex, bool) {
+	switch x := v.(type) {
+	case svIndex:
+		return x, true
+	case svSel:
+		if ix, ok := x.x.(svIndex); ok && !strings.Contains(x.steps, ".") {
+			return ix, true
+		}
+	}
+	return svIndex{}, false
+}
+
+// expandConds splits conjunctions: on the branch where `a && b` holds both do; on the other branch the
+// comparisons it contains are taken not to hold (an entry that is absent has not the value looked for).
+func expandConds(conds []scond) []scond {
+	var out []scond
+	var add func(v sval, neg bool, loop bool)
+	add = func(v sval, neg bool, loop bool) {
+		switch x := v.(type) {
+		case svNot:
+			add(x.x, !neg, loop)
+			return
+		case svBin:
+			if x.op == token.LAND {
+				if !neg {
+					add(x.x, false, loop)
+					add(x.y, false, loop)
+				} else {
+					// not (a && b): each comparison below it fails as far as the guard is concerned
+					for _, part := range []sval{x.x, x.y} {
+						if n, isNot := part.(svNot); isNot {
+							add(n.x, false, loop)
+						} else if b, isB := part.(svBin); isB && b.op == token.NEQ {
+							add(b, true, loop)
+						}
+					}
+				}
+				return
+			}
+		}
+		out = append(out, scond{v: v, neg: neg, loop: loop})
+	}
+	for _, cd := range conds {
+		add(cd.v, cd.neg, cd.loop)
+	}
+	return out
 }
